@@ -150,12 +150,18 @@ def cases(tier, rng):
                 add("zerofier-duplicates", "%s %s %s" % (op, f, d))
         add("zerofier-special", "zerofier %s %s" % (f, flat([el(f, 0), el(f, 1), el(f, P - 1), el(f, 0)])))
     if big:
+        # the model repeats all the work of the code at ~1 us per field operation: sizes are chosen so that the whole
+        # thorough tier stays below ~30 CPU minutes (spread over the oracle's worker processes)
         for n in (1023, 1024, 1025, 4095, 4096, 4097, 8192):
             for dk, dg in DOMS:
+                if dk != "random" and n not in (1024, 4097):
+                    continue
                 d = flat(dg(rng, "b", n))
-                for op in ("zerofier", "par_zerofier", "fast_zerofier", "tree_zerofier"):
+                for op in ("zerofier", "fast_zerofier", "tree_zerofier"):
                     add("zerofier-large", "%s b %s" % (op, d))
-        d = flat(dom_random(rng, "x", 1025))
+                if n in (1025, 4097):
+                    add("zerofier-large", "par_zerofier b %s" % d)
+        d = flat(dom_random(rng, "x", 513))
         for op in ("zerofier", "par_zerofier", "tree_zerofier"):
             add("zerofier-large", "%s x %s" % (op, d))
     # ---------------------------------------------------------------- 2. interpolation
@@ -208,18 +214,18 @@ def cases(tier, rng):
         for n in (1024, 1025):
             for dk, dg in DOMS:
                 d, v = dg(rng, "b", n), vals(rng, "b", n)
-                for op in ("interpolate", "par_interpolate", "fast_interpolate", "par_fast_interpolate"):
+                for op in (("interpolate", "par_interpolate", "fast_interpolate", "par_fast_interpolate") if dk == "random"
+                           else ("interpolate", "fast_interpolate")):
                     add("interpolate-large", "%s b %s | %s" % (op, flat(d), flat(v)))
-        for n in (4095, 4096, 4097):
+        # both sides of FAST_INTERPOLATE_CUTOFF_THRESHOLD_SEQUENTIAL: 4096 is one Lagrange pass (~10^8 field operations in the
+        # model), 4097 the recursive fast path
+        for n in (4096, 4097):
             d, v = dom_random(rng, "b", n), vals(rng, "b", n)
             add("interpolate-large", "interpolate b %s | %s" % (flat(d), flat(v)))
-            add("interpolate-large", "par_interpolate b %s | %s" % (flat(d), flat(v)))
         d, v = dom_geom(rng, "b", 4097), vals(rng, "b", 4097)
-        add("interpolate-large", "interpolate b %s | %s" % (flat(d), flat(v)))
-        d, v = dom_random(rng, "b", 8192), vals(rng, "b", 8192)
-        add("interpolate-large", "fast_interpolate b %s | %s" % (flat(d), flat(v)))
+        add("interpolate-large", "par_interpolate b %s | %s" % (flat(d), flat(v)))
         d, v = dom_random(rng, "x", 300), vals(rng, "x", 300)
-        for op in ("interpolate", "par_interpolate", "par_fast_interpolate"):
+        for op in ("interpolate", "par_interpolate"):
             add("interpolate-large", "%s x %s | %s" % (op, flat(d), flat(v)))
     # ---------------------------------------------------------------- 3. batched interpolation (memoised)
     for f in ("b", "x"):
@@ -251,7 +257,7 @@ def cases(tier, rng):
         for m in ((1, 2, 15, 16, 17, 33, 100) if f == "b" else (1, 2, 16, 17)):
             degs = sorted({-1, 0, 1, m - 1, m, 3 * m, 4 * m - 1, 4 * m, 4 * m + 1, 5 * m, 17 * m + 3})
             for deg in degs:
-                if f == "x" and deg > 100:
+                if (f == "x" and deg > 100) or (m == 100 and deg > 5 * m):
                     continue
                 d = dom_random(rng, f, m)
                 a = grp(poly(rng, f, deg), rng.choice((0, 0, 2)))
@@ -273,13 +279,15 @@ def cases(tier, rng):
         for op in ("batch_evaluate", "par_batch_evaluate", "dac_batch_evaluate"):
             add("evaluate-large", "%s b %s | %s" % (op, a, flat(d)))
     if big:
-        for (m, deg) in ((1024, 4095), (1024, 4096), (1025, 20000), (4096, 4095), (5000, 100)):
+        # divide_and_conquer_batch_evaluate reduces the WHOLE polynomial at every leaf (|domain|/16 reductions)
+        for (m, deg) in ((1024, 4095), (1024, 4096), (1025, 20000), (2048, 2047), (5000, 100)):
             d = dom_random(rng, "b", m)
             a = grp(poly(rng, "b", deg))
-            for op in ("batch_evaluate", "par_batch_evaluate"):
-                add("evaluate-large", "%s b %s | %s" % (op, a, flat(d)))
-        d = dom_random(rng, "x", 300)
-        a = grp(poly(rng, "x", 1300))
+            add("evaluate-large", "batch_evaluate b %s | %s" % (a, flat(d)))
+            if m in (1024, 5000) and deg != 4095:
+                add("evaluate-large", "par_batch_evaluate b %s | %s" % (a, flat(d)))
+        d = dom_random(rng, "x", 200)
+        a = grp(poly(rng, "x", 900))
         for op in ("batch_evaluate", "par_batch_evaluate"):
             add("evaluate-large", "%s x %s | %s" % (op, a, flat(d)))
     # ---------------------------------------------------------------- 5. coset evaluate / interpolate
@@ -326,16 +334,16 @@ def cases(tier, rng):
         add("modular-panics", "modular_interpolate %s 0 | %s | %s" % (f, flat(vals(rng, f, 256)), grp(poly(rng, f, 3))))
         add("modular-panics", "modular_interpolate %s 7 | %s | %s" % (f, flat(vals(rng, f, 6)), grp(poly(rng, f, 3))))
         add("modular-panics", "modular_interpolate %s 7 | | %s" % (f, grp(poly(rng, f, 3))))
-        for (n, md) in ((1, 1), (2, 3), (8, 2), (256, 17), (16, 0), (8, 300)):
+        for (n, md) in (((1, 1), (2, 3), (8, 2), (256, 17), (16, 0), (8, 300)) if f == "b" else ((1, 1), (2, 3), (8, 2), (16, 0))):
             add("modular-preprocess", "modular_preprocess %s %d %d | %s" % (f, n, rng.choice(offsets), grp(poly(rng, f, md))))
         add("modular-preprocess", "modular_preprocess %s 8 0 | %s" % (f, grp(poly(rng, f, 2))))
         add("modular-preprocess", "modular_preprocess %s 6 7 | %s" % (f, grp(poly(rng, f, 2))))
         add("modular-preprocess", "modular_preprocess %s 0 7 | %s" % (f, grp(poly(rng, f, 2))))
         add("modular-preprocess", "modular_preprocess %s 8 7 | o0" % f)
     if big:
-        for k in (10, 12, 17, 18):
+        for (k, mds) in ((10, (1, 99, 100)), (12, (1, 100)), (17, (1, 100)), (18, (99,))):
             n = 2**k
-            for md in (1, 99, 100):
+            for md in mds:
                 add("modular-interpolate-large", "modular_interpolate b %d | %s | %s" % (rng.choice(offsets), flat(vals(rng, "b", n)), grp(poly(rng, "b", md))))
     # ---------------------------------------------------------------- 7. coset extrapolation
     for f in ("b", "x"):
@@ -376,7 +384,7 @@ def cases(tier, rng):
         for k in (10, 12, 17, 18):
             n = 2**k
             for npts in (99, 100, 101):
-                if k == 18 and npts == 101:
+                if k >= 17 and npts == 101:
                     continue
                 off = rng.choice(offsets)
                 add("extrapolate-large", "coset_extrapolate b %d | %s | %s" % (off, flat(vals(rng, "b", n)), flat(dom_random(rng, "b", npts))))
@@ -421,7 +429,7 @@ def cases(tier, rng):
         add("colinear", "colinear_y %s %s | %s" % (f, flat([xs[0], ys[0], xs[0], ys[1]]), flat([xs[2]])))
         add("colinear", "colinear %s %s" % (f, flat([xs[0], ys[0], xs[1], ys[0], xs[2], ys[0]])))
     # ---------------------------------------------------------------- 10. random mix
-    nrand = 400 if big else 60
+    nrand = 300 if big else 60
     for _ in range(nrand):
         f = rng.choice(("b", "b", "x"))
         n = rng.choice((1, 2, 3, 5, 8, 20, 40, 70)) if f == "x" else rng.choice((1, 2, 3, 5, 8, 20, 40, 70, 130, 200, 300))
